@@ -20,6 +20,7 @@ import (
 	"reflect"
 	"sort"
 	"strings"
+	"sync/atomic"
 	"testing"
 	"testing/synctest"
 	"time"
@@ -41,6 +42,11 @@ func (l sessLog) Warning(format string, args ...interface{}) {
 		cls := "other"
 		if e, ok := args[1].(string); ok && strings.HasPrefix(e, "frame length too big") {
 			cls = "toobig"
+			// "frame length too big: <content> > <max>": a reply that is NOT above the limit must not be refused
+			var a, b int
+			if n, _ := fmt.Sscanf(e, "frame length too big: %d > %d", &a, &b); n == 2 && a <= b {
+				cls = "toobig-but-fits"
+			}
 		}
 		l.r.ev("replyerr %d %v %s", l.ep, args[0], cls)
 	}
@@ -529,6 +535,7 @@ type sessPlan struct {
 	stallRx int      // endpoint whose receive loop is held back for the first virtual seconds (-1: none)
 	shared  bool     // callers derive their contexts from one tagged parent
 	wfail   [2]int   // Write call that fails per endpoint (-1: none)
+	exact bool // replies sized exactly at the frame limit: keep the paddings as they are
 	lateAfterReg bool // the caller of the late-registered method starts only after the registration has completed
 	slowReply int    // endpoint whose FIRST reply reaches the wire in two parts, seconds apart (-1: none)
 	lazyFin bool     // callers about to finish their records run only when nothing else can (a reply that arrives
@@ -632,7 +639,7 @@ func genPlan(g *prng, flavour string) sessPlan {
 		if g.chance(1, 4) {
 			// a fatal frame racing a local Close of the same endpoint: Err() must settle on ONE value
 			ep := g.intn(2)
-			p.inject = append(p.inject, fmt.Sprintf("garbage@%d", ep))
+			p.inject = append(p.inject, fmt.Sprintf("%s@%d", []string{"garbage", "badprefix"}[g.intn(2)], ep))
 			p.closer = fmt.Sprintf("ext%d", ep)
 			p.closers = 1
 		}
@@ -695,7 +702,21 @@ func genPlan(g *prng, flavour string) sessPlan {
 			p.extra = 8 + g.intn(10)
 		}
 		p.max = 256
+		if g.chance(1, 4) {
+			// replies whose content is exactly the limit (and one byte around it): request 20+pad, reply 25+pad+extra
+			p.extra = 11
+			ep := g.intn(2)
+			p.ops = nil
+			for i, pad := range []int{219, 220, 221} {
+				p.ops = append(p.ops, sessOp{caller: i, ep: ep, kind: "call", method: "echo", nonce: int64(100 + i), pad: pad,
+					timeout: 2 * time.Second})
+			}
+			p.exact = true
+		}
 		for i := range p.ops {
+			if p.exact {
+				break
+			}
 			if g.chance(1, 2) {
 				p.ops[i].pad = 200 + g.intn(60)
 			}
@@ -894,8 +915,14 @@ func runSession(g *prng, p sessPlan, script []string) (hist []string, trace []st
 					enc.value(&body, nil)
 				}
 				var fr bytes.Buffer
-				enc.intv(&fr, int64(body.Len()))
-				fr.Write(body.Bytes())
+				if kind == "badprefix" {
+					// a length prefix that arrives intact but is a msgpack string, not an integer: fatal for the receiver
+					fr.Write([]byte{0xa1, 'x'})
+					kind = "garbage"
+				} else {
+					enc.intv(&fr, int64(body.Len()))
+					fr.Write(body.Bytes())
+				}
 				r.ev("inj %d %s", ep, kind)
 				s.ep[ep].conn.inject(fr.Bytes())
 			}
@@ -1075,6 +1102,7 @@ func init() {
 				} else {
 					plan = genPlan(pg, fl)
 				}
+				atomic.AddInt64(&verifProgress, 1)
 				hist, trace, steps := runSession(sg, plan, nil)
 				totalSteps += steps
 				for _, h := range hist {
